@@ -44,6 +44,7 @@ THEOREMS = [
     "SleapVerif.C03.solver_contract_implies_stable",
     "SleapVerif.C03.grouping_reassembly",
     "SleapVerif.C03.reassembly_exact",
+    "SleapVerif.C03.empty_frame_no_instances",
     "SleapVerif.C03.keepTop_all",
 ]
 
@@ -111,10 +112,17 @@ def segs_dist(a, b, c, d):
     return best
 
 
-def gen_scene(rng, big=False, crowded=False):
+def gen_scene(rng, big=False, crowded=False, empty=None, border_band=False, elongated=False):
     """A batch of frames in *network-input* pixel coordinates plus the decode parameters.
     `crowded`: 5 compact animals of 4-6 nodes on a 3x2 layout (≥ 17 peaks in a frame unless nodes
-    are missing), input scale ≠ 1, some missing nodes."""
+    are missing), input scale ≠ 1, some missing nodes.
+    `elongated`: frame about 3x longer than wide (or wider than tall) with limbs up to 1.3 x max_edge_length
+    (which is a quarter of the LONGER PAF side) along the long axis.
+    `border_band`: animals are rooted next to the right / bottom border and their nodes may lie in the last PAF-stride
+    band (beyond the last PAF grid coordinate, where the confidence-map grid still has cells); every animal keeps
+    a node strictly inside the PAF grid (else `generate_pafs` drops it: C05's finding F-C05b).
+    `empty` ∈ first | middle | last | all: batch of 2-4 frames in which that frame (all frames) has no visible
+    keypoint at all — no animal, or animals whose nodes are all invisible."""
     if crowded:
         cs, ps = rng.choice([(2, 4), (2, 2), (1, 2)])
         n_nodes = rng.choice([4, 5, 6])
@@ -138,15 +146,26 @@ def gen_scene(rng, big=False, crowded=False):
     else:
         cells = rng.randrange(18, 33 if not big else 41)
         cells_w = rng.randrange(18, 33 if not big else 41)
+        if elongated:
+            cells, cells_w = rng.randrange(12, 17), rng.randrange(36, 45)
+            if rng.random() < 0.5:
+                cells, cells_w = cells_w, cells
         # keep the PAF tensor small enough for the line protocol
         while (cells * unit // ps) * (cells_w * unit // ps) * 2 * len(edges) > (16000 if not big else 40000):
             cells = max(12, cells - 2); cells_w = max(12, cells_w - 2)
         Hin, Win = cells * unit, cells_w * unit
         max_len = 0.25 * max(Hin // ps, Win // ps, 2 * len(edges)) * ps
-        max_edge = max(min_edge + 2.0, min(1.3 * max_len, 0.45 * min(Hin, Win)))
+        max_edge = max(min_edge + 2.0, min(1.3 * max_len, (0.45 if not elongated else 1.6) * min(Hin, Win)))
     B = rng.choice([1, 1, 2, 3]) if not crowded else rng.choice([1, 2])
+    if empty:
+        B = rng.choice([2, 3, 4]) if empty != "middle" else rng.choice([3, 4])
     p_miss = rng.choice([0.0, 0.0, 0.15, 0.3]) if not crowded else rng.choice([0.0, 0.1, 0.1])
     border = unit + 2.0
+    hi_x, hi_y = Win - border - unit, Hin - border - unit          # upper bounds of keypoint coordinates
+    if border_band:
+        hi_x, hi_y = Win - cs - 0.75, Hin - cs - 0.75
+    paf_last_x = ((Win + ps - 1) // ps - 1) * ps
+    paf_last_y = ((Hin + ps - 1) // ps - 1) * ps
     frames = []
     for _ in range(B):
         want = rng.choice([1, 2, 3, 4, 5]) if not crowded else 5
@@ -160,8 +179,13 @@ def gen_scene(rng, big=False, crowded=False):
                     bx, by = _a % 3, _a // 3
                     pts[root] = (border + 4 + (bx + 0.5) * box + rng.uniform(-2, 2),
                                  border + 4 + (by + 0.5) * box + rng.uniform(-2, 2))
+                elif border_band:
+                    if rng.random() < 0.5:
+                        pts[root] = (rng.uniform(max(border, paf_last_x - 0.5 * ps), hi_x), rng.uniform(border, hi_y))
+                    else:
+                        pts[root] = (rng.uniform(border, hi_x), rng.uniform(max(border, paf_last_y - 0.5 * ps), hi_y))
                 else:
-                    pts[root] = (rng.uniform(border, Win - border - unit), rng.uniform(border, Hin - border - unit))
+                    pts[root] = (rng.uniform(border, hi_x), rng.uniform(border, hi_y))
                 todo = [root]
                 ok = True
                 while todo and ok:
@@ -170,9 +194,11 @@ def gen_scene(rng, big=False, crowded=False):
                         if a == u:
                             for _t in range(12):
                                 L = rng.uniform(min_edge, max_edge)
+                                if elongated and rng.random() < 0.6:
+                                    L = rng.uniform(0.85, 1.0) * max_edge
                                 th = rng.uniform(0, 2 * math.pi)
                                 q = (pts[u][0] + L * math.cos(th), pts[u][1] + L * math.sin(th))
-                                if border <= q[0] <= Win - border - unit and border <= q[1] <= Hin - border - unit:
+                                if border <= q[0] <= hi_x and border <= q[1] <= hi_y:
                                     break
                             else:
                                 ok = False
@@ -204,9 +230,19 @@ def gen_scene(rng, big=False, crowded=False):
                 if clash:
                     continue
                 vis = {k: rng.random() >= p_miss for k in snapped}
+                if border_band and not any(vis[k] and 0 < snapped[k][0] < paf_last_x and 0 < snapped[k][1] < paf_last_y
+                                    for k in snapped):
+                    continue
                 animals.append({"pts": snapped, "fl": fl, "vis": vis})
                 break
         frames.append([[(an["pts"][k] if an["vis"][k] else None) for k in range(n_nodes)] for an in animals])
+    if empty:
+        def blank():
+            return [] if rng.random() < 0.5 else [[None] * n_nodes for _ in range(rng.choice([1, 2]))]
+        idx = {"first": [0], "last": [B - 1], "middle": [rng.randrange(1, B - 1)] if B > 2 else [0],
+               "all": list(range(B))}[empty]
+        for i in idx:
+            frames[i] = blank()
     scale = rng.choice([1.0, 1.0, 0.5, 0.75, 2.0, 0.625]) if not crowded else rng.choice([0.5, 0.75, 2.0, 0.625])
     effs = [rng.choice([1.0, 1.0, 0.5, 0.8, 0.625, 1.25]) for _ in range(B)]
     return {
@@ -590,7 +626,8 @@ def compare_phase(chk, c, model, tag, stats, do_case=True):
                            "pred_instances": len(pred), "model": m["status"]},
                      tags=[tag, f"strides={sc['cs']},{sc['ps']}", f"nodes={sc['n_nodes']}", f"animals={len(sc['frames'][b])}",
                            f"groups={exp_n}", f"refine={sc['refinement']}", f"batch={B}", f"scale={sc['scale']}",
-                           "missing" if any(p is None for an in sc["frames"][b] for p in an) else "complete"])
+                           "missing" if any(p is None for an in sc["frames"][b] for p in an) else "complete"]
+                     + (["sample_without_peaks"] if n_vis == 0 else []))
         bad = False
         knife_sample = False
         # -- (1) candidates, subscripts, scores
@@ -967,7 +1004,20 @@ def main(chk: Check):
     while done < n_scenes and len(chk.disagreements) <= 8 and len(chk.failing) <= 8:
         chunk = []
         for i in range(done, min(n_scenes, done + 15)):
-            sc = gen_scene(rng, big=chk.thorough and i % 5 == 0, crowded=(i % 9 == 4))
+            emp = ["first", "middle", "last", "all", "first", "middle", "last"][(i // 9) % 7] if i % 9 == 7 else None
+            sc = gen_scene(rng, big=chk.thorough and i % 5 == 0, crowded=(i % 9 == 4), empty=emp, border_band=(i % 9 == 1),
+                           elongated=(i % 9 == 2))
+            if i % 9 == 2:
+                chk.tag("elongated_scene")
+            if i % 9 == 1:
+                sc["refinement"] = None   # integral refinement is biased when its patch crosses the map border (C06/C07)
+                ps_, W_, H_ = sc["ps"], sc["Win"], sc["Hin"]
+                lx, ly = ((W_ + ps_ - 1) // ps_ - 1) * ps_, ((H_ + ps_ - 1) // ps_ - 1) * ps_
+                nb = sum(p is not None and (p[0] > lx or p[1] > ly) for fr in sc["frames"] for an in fr for p in an)
+                chk.tag("border_band_scene", "border_band_keypoints>0" if nb else "border_band_none")
+            if emp:
+                sc["refinement"] = [None, "integral"][(i // 9) % 2] if emp != "all" else rng.choice([None, "integral"])
+                chk.tag(f"empty_frame:{emp}")
             if i % 9 == 4:
                 chk.tag("crowded_scene", "crowded_max_peaks>=17" if max(
                     sum(p is not None for an in fr for p in an) for fr in sc["frames"]) >= 17 else "crowded_small")
@@ -1073,6 +1123,9 @@ if __name__ == "__main__":
              "with < 2 visible keypoints; plus unit-level make_line_subs cases (inside/outside/ties/fine) and max_instances cases",
         assumptions=[
             "keypoints exactly half-way between two confidence-map cells (tied maxima, C06/C07 territory) are excluded by the generator",
+            "integral refinement of a peak closer to the map border than half its patch is biased inward by > half a cell "
+            "(observed 0.63 cell at a 5x5 patch, cms stride 1, keypoint 1.25 px from the right border): C06/C07 matter; "
+            "border-band scenes use refinement None, all other scenes keep keypoints ≥ max(stride)+2 px from the border",
             "coincident src/dst peaks (F-C08) and LabelsReader at scale ≠ 1 (F-C02) are inherited findings and not exercised here",
         ],
     )
